@@ -202,6 +202,13 @@ def drive(recipe):
                 g, o = grid_vec(row, n, 1e-9)
                 t["out3"].append(g)
                 off |= o
+            # a caller may edit the matrix it is handed (core/dimer.py adds a lattice shift to one): the operation is not affected
+            try:
+                m = op.seitz_matrix
+                m *= -1.0
+                m[:3, 3] += 0.25
+            except Exception:
+                pass
             o4 = op.apply(np.c_[x, np.ones(len(x))])
             for row in o4:
                 g, o = grid_vec(row, n, 1e-9)
